@@ -12,6 +12,7 @@ import Spydr.Verilog.RoundTripLexB
 import Spydr.Verilog.RoundTripStruct
 import Spydr.Verilog.RoundTripLeafF
 import Spydr.Verilog.RoundTripLeafI
+import Spydr.Verilog.RoundTripLeafJ
 
 #print axioms Spydr.Verilog.getWires_spec
 #print axioms Spydr.Verilog.getWires_spec_single_all
@@ -139,3 +140,9 @@ import Spydr.Verilog.RoundTripLeafI
 #print axioms Spydr.Verilog.Elab.c04_text_bb
 #print axioms Spydr.Verilog.Elab.exNetBB_struct
 #print axioms Spydr.Verilog.Elab.exNetBB_roundtrip
+#print axioms Spydr.Verilog.Elab.buildBB_low
+#print axioms Spydr.Verilog.Elab.c04_full_ast
+#print axioms Spydr.Verilog.Elab.c04_full_bb
+#print axioms Spydr.Verilog.Elab.exNetBB_full
+#print axioms Spydr.Verilog.Elab.nobb_row_shrinks
+#print axioms Spydr.Verilog.Elab.exNetRB_full
